@@ -196,6 +196,7 @@ func (v *vc) execCall(fr *frame, st *state, instr ssa.Instruction, c *ssa.CallCo
 	if v.intrinsic(fr, st, instr, name, c, args, res) {
 		return
 	}
+	v.checkCalleeHolds(fr, st, instr, callee, c, args, site)
 	if fc := v.eng.contractFor(callee); fc != nil && !fc.inline {
 		v.contractCall(fr, st, instr, fc, callee, c, args, res, site)
 		return
@@ -401,6 +402,9 @@ func (v *vc) contractCall(fr *frame, st *state, instr ssa.Instruction, fc *funcC
 	se.cur = pre
 	assumeReq := fr.top && fr.fc != nil && fr.fc.callAssumeReq[site]
 	for _, r := range fc.requires {
+		if v.fc != nil && v.fc.sweep {
+			break // the lock sweep claims nothing about the callee's functional preconditions
+		}
 		if assumeReq {
 			v.trusted[fmt.Sprintf("assumption: preconditions of %s assumed at %s (invariant of the callee's receiver, not tracked by the caller)", key, site)] = true
 			v.fact(st, se.evalAssume(r.expr))
@@ -831,6 +835,13 @@ func (v *vc) callMods(fr *frame, c *ssa.CallCommon, m *modSet, depth int) {
 			m.heaps[b2], m.heaps[c2] = true, true
 		}
 		return
+	}
+	if strings.HasPrefix(name, "(*sync.RWMutex).") || strings.HasPrefix(name, "(*sync.Mutex).") {
+		if len(c.Args) > 0 {
+			if g, _ := v.eng.lockGhostOfArg(c.Args[0]); g != "" {
+				m.ghost[g] = true
+			}
+		}
 	}
 	if ok, mods := v.intrinsicMods(fr, name, c); ok {
 		for _, h := range mods {
